@@ -20,9 +20,20 @@ class T(models.Model):
         db_table = "t"
 
 
+class Region(models.Model):
+    name = models.CharField(max_length=50)
+    size = models.IntegerField()
+
+    class Meta:
+        app_label = "vp_djapp"
+        db_table = "region"
+
+
 class Country(models.Model):
     name = models.CharField(max_length=50)
     code = models.IntegerField()
+    # the one mandatory (NOT NULL) foreign key of the harness schema
+    region = models.ForeignKey(Region, on_delete=models.CASCADE, related_name="countries")
 
     class Meta:
         app_label = "vp_djapp"
